@@ -453,6 +453,16 @@ def _bad_advance():
     return {"command": "advanceBlockchain", "version": 5, "blocks": [BLOCK_A.hex(), BLOCK_17.hex()], "brothers": [[BRO_1.hex()], []]}
 
 
+def _sign_2in(i):
+    from harness.catalog import mk_tx, push, SIG, REDEEM, pat
+    tx = mk_tx([(pat(32, 1), 0, b"\x00" + push(SIG) + push(REDEEM), 0xfffffffe), (pat(32, 4), 7, b"\x00" + push(SIG) + push(REDEEM), 3)],
+               [(1000, pat(25, 2))], version=2, locktime=17)
+    r = valid_request("sign", 0)
+    r["message"]["tx"] = tx.hex()
+    r["message"]["input"] = i
+    return r
+
+
 def requests_catalogue():
     sign = valid_request("sign", 0)
     sign2 = valid_request("sign", 1)
@@ -462,7 +472,8 @@ def requests_catalogue():
             ("getPubKey", valid_request("getPubKey")), ("sign (hash)", sign2),
             ("advanceBlockchain (2 blocks)", valid_request("advanceBlockchain", 1)),
             ("uiHeartbeat", valid_request("uiHeartbeat")), ("v1 sign", _v1_sign()), ("v1 getPubKey", valid_request("getPubKey", 2, version=1)),
-            ("advanceBlockchain (2nd block lacks its merge-mining fields)", _bad_advance())]
+            ("advanceBlockchain (2nd block lacks its merge-mining fields)", _bad_advance()),
+            ("sign (authorized), input 0 of a 2-input tx", _sign_2in(0)), ("sign (authorized), input 1 of the same tx", _sign_2in(1))]
 
 
 CATALOGUE = requests_catalogue()
@@ -486,6 +497,7 @@ SETS = SETS + [(5, 1), (1, 5, 4)]            # ("fatal") hash sign (fatal) | sta
 SETS = SETS + [(5, 4, 1)]                    # ("tcpslow") hash sign | getPubKey | state on the TCP dongle
 SETS = SETS + [(3, 7, 3)]                    # ("tcphb") signerHeartbeat | uiHeartbeat | signerHeartbeat on the TCP dongle
 SETS = SETS + [(10, 2, 1)]                   # an advance the manager abandons half way | a good advance | state
+SETS = SETS + [(11, 12, 11)]                 # two clients sign different inputs of one transaction (and one of them twice)
 if os.environ.get("VERIF_TIER") == "thorough":
     SETS = SETS + [(2, 0, 3), (1, 2, 5), (0, 0, 1), (0, 0, 0, 0), (3, 2, 1, 0), (0, 1, 2, 3, 4), (0, 1, 2, 3, 4, 5)]    # (equal requests too), 5 and 6 clients
 
@@ -907,11 +919,14 @@ def _zero(**kw):
 
 @obligation(tier="quick", parts=len(SETS), timeout=300,
             part_names=lambda p: " | ".join(CATALOGUE[i][0] for i in SETS[p]) + (" [%s]" % MODES[p] if p in MODES else ""),
-            bounds="2, 3 or 4 (T: up to 6) simultaneously connected clients (13 (T: 20) request sets, two of them with a device that abandons an advance half way, from: authorized sign, hash sign, "
-                   "advanceBlockchain, blockchainState, signerHeartbeat, getPubKey - partition); decision points: select() of the accept "
-                   "loop, every device exchange, every socket read and write; schedule: 14 solver variables c0..c13, one consumed per "
-                   "decision point with more than one runnable party (later ones take the first party); preemption inside other code is "
-                   "not modelled; simulated sockets instead of TCP; forking servers not modelled (inconclusive)",
+            bounds="2, 3 or 4 (T: up to 6) simultaneously connected clients; 21 (T: 28) request sets (partition) from: authorized sign (two "
+                   "inputs of one tx, segwit), hash sign, advanceBlockchain (1 / 2 blocks, one abandoned half way), blockchainState, "
+                   "signerHeartbeat, uiHeartbeat, getPubKey, legacy-mode sign / getPubKey; special sets: device that abandons an advance, "
+                   "legacy mode with a write error, a fatal device status, TCP dongle class over a byte stream with one slow answer, both "
+                   "heartbeats on the TCP class; decision points: select() of the accept loop, every device exchange, every socket read "
+                   "and write, every Condition wait; schedule: 14 solver variables c0..c13, one consumed per decision point with more "
+                   "than one runnable party (later ones take the first party); preemption inside other code is not modelled; simulated "
+                   "sockets instead of TCP; forking servers and signals not modelled",
             examples=[(0, _zero()), (0, _zero(c0=1)), (6, _zero(c0=2, c1=1)), (1, {n: 1 for n in _NAMES}), (9, _zero(c0=3, c1=1, c2=1))])
 def schedules(c0: int, c1: int, c2: int, c3: int, c4: int, c5: int, c6: int, c7: int, c8: int, c9: int,
               c10: int, c11: int, c12: int, c13: int) -> bool:
